@@ -25,6 +25,7 @@ type universe struct {
 	EIDs    []string
 	VLabels []string
 	ELabels []string
+	HideSchemaGraphs bool
 }
 
 func vCanon(v *gdbi.Vertex) string {
@@ -152,8 +153,14 @@ func oneReq(id string) chan gdbi.ElementLookup {
 func observeReal(db gdbi.GraphDB, u universe, workDir string) *obs {
 	o := newObs()
 	ctx := context.Background()
-	names := db.ListGraphs()
-	o.put("graphs", sortedJoin(append([]string{}, names...)))
+	var names []string
+	for _, n := range db.ListGraphs() {
+		if u.HideSchemaGraphs && strings.HasSuffix(n, "__schema__") {
+			continue // schema graphs are the server's own bookkeeping (AddSchema)
+		}
+		names = append(names, n)
+	}
+	o.put("graphs", sortedJoin(names))
 	for _, gn := range u.Graphs {
 		g, err := db.Graph(gn)
 		if err != nil {
